@@ -182,9 +182,18 @@ func (g *Gen) applyContract(ct *Contract, names []string, args []*Val, sig *type
 			sub.vars[bv.Name] = scalar(sortOfSpecName(bv.Sort), name, nil)
 			decls = append(decls, fmt.Sprintf("(%s %s)", name, sortOfSpecName(bv.Sort)))
 		}
+		markBody := len(g.lines)
 		body := g.specBool(sub, fd.C.E)
+		// typing facts emitted while evaluating the schema body mention its bound variables: they belong to the
+		// (skolemised) obligation, not to the unit's line list
+		var bodySide []string
+		if len(g.lines) > markBody {
+			bodySide = append(bodySide, g.lines[markBody:]...)
+			g.lines = g.lines[:markBody]
+		}
 		o := g.oblige("pre", fmt.Sprintf("(forall (%s) %s)", strings.Join(decls, " "), body), pos, fmt.Sprintf("precondition schema %s of %s", fd.Name, shortKey(ct.Key)), fd.C.Props)
 		if o != nil {
+			defer func(o *Obligation, side []string) { o.Extra = append(o.Extra, side...) }(o, bodySide)
 			// checked in skolemised form: the bound variables become constants of this obligation, and the caller's own
 			// precondition schemas with the same number of variables are instantiated at them (schemas are passed along)
 			reach := g.reach
@@ -194,6 +203,43 @@ func (g *Gen) applyContract(ct *Contract, names []string, args []*Val, sig *type
 				nm := sub.vars[bv.Name].S[0]
 				skNames = append(skNames, nm)
 				o.Extra = append(o.Extra, fmt.Sprintf("(declare-const %s %s)", nm, sortOfSpecName(bv.Sort)))
+			}
+			if pd := g.passDirective(fd.Name); pd != nil && len(pd.PassVars) == len(fd.Vars) {
+				// explicit justification: OWNFACT(e1, ..) with the callee's bound variables standing for the skolems
+				penv := g.pointEnv(g.curCall)
+				for i, vn := range pd.PassVars {
+					penv.vars[vn] = scalar(sortOfSpecName(fd.Vars[i].Sort), skNames[i], nil)
+				}
+				var own *FactDef
+				for _, f := range g.ct.Facts {
+					if f.Name == pd.C.E.Args[0].Tok {
+						own = f
+					}
+				}
+				if own != nil && len(pd.C.E.Args)-1 == len(own.Vars) {
+					entry := g.entryEnv()
+					mark := len(g.lines)
+					okArgs := true
+					for i, bv := range own.Vars {
+						av := g.specVal(penv, pd.C.E.Args[1+i])
+						if av == nil {
+							okArgs = false
+							break
+						}
+						entry.vars[bv.Name] = scalar(sortOfSpecName(bv.Sort), av.S[0], nil)
+					}
+					if okArgs {
+						inst := g.specBool(entry, own.C.E)
+						if len(g.lines) > mark {
+							o.Extra = append(o.Extra, g.lines[mark:]...)
+							g.lines = g.lines[:mark]
+							g.lineTag = g.lineTag[:mark]
+						}
+						o.Extra = append(o.Extra, "(assert "+inst+")")
+					}
+				} else {
+					g.bindFail("pass: unknown fact or wrong number of arguments: " + pd.C.Text)
+				}
 			}
 			for _, own := range g.ct.Facts {
 				if len(own.Vars) != len(fd.Vars) {
